@@ -1,5 +1,5 @@
 (* Composite correspondence driver (C09, C10, C11).
-   usage: composite_model [fix=0|1] [fix11=0|1] [stale=0|1] [lc=0|1] [fuel=N] [cap=N states] [budget=seconds per trace] [cover=0|1]
+   usage: composite_model [fix=0|1] [fix11=0|1] [stale=0|1] [lc=0|1] [ms=0|1] [fuel=N] [cap=N states] [budget=seconds per trace] [cover=0|1]
    stdin: the output of harness/cmd/composite:
      CASE id family pool n name:style:exit:rk ...   SCRIPT json   E <event> ...   OUTCOME o   END
      M old new v          (check A, hasMembershipChanged observed through Reload)
@@ -12,6 +12,7 @@ let fix = ref true
 let fix11 = ref true
 let stale = ref true
 let lc = ref true
+let ms = ref true
 let fuel = ref 20000
 let cap = ref 3000
 let budget = ref 2.5
@@ -146,7 +147,8 @@ type case = {
   mutable evs : (event * string) list; mutable blocked : string; mutable lives : int list;
   mutable parks : int; mutable outcome : string; mutable notes : string list;
   mutable cens : (int * int * int * int) list; (* (model events before, kids, workers, other) *)
-  mutable helds : (int * int) list (* (number of model events before the observation, sequence number held) *) }
+  mutable helds : (int * int) list; (* (number of model events before the observation, sequence number held) *)
+  mutable childstates : int list option (* names listed by GetChildStates() at final quiescence *) }
 
 let count f l = List.length (List.filter f l)
 
@@ -170,7 +172,7 @@ let nparks = ref 0 and nblocked = ref 0 and nevents = ref 0 and nwit = ref 0
 
 let finish (c : case) =
   incr ncases;
-  let p = { pool = c.pool; fix_c09 = !fix; fix_c11 = !fix11; fix_stale = !stale; fix_lc = !lc } in
+  let p = { pool = c.pool; fix_c09 = !fix; fix_c11 = !fix11; fix_stale = !stale; fix_lc = !lc; fix_ms = !ms } in
   let evl = List.rev c.evs in
   let evs = List.map fst evl in
   let n = List.length evs in
@@ -228,6 +230,17 @@ let finish (c : case) =
         opened = closed && cbs > 0 && k <> cbs in
       if List.exists stale c.helds then 30 else 0
     end in
+  (* C11 "GetChildStates()/String() after Reload returns" (observe_at): at final quiescence GetChildStates()
+     lists exactly the names of the stored configuration of SOME model state compatible with the whole trace
+     (hand-written, like clause 30) *)
+  let v11 =
+    if v11 <> 0 || finals = [] then v11
+    else match c.childstates with
+      | None -> v11
+      | Some obs ->
+        let names_of_state st =
+          List.sort_uniq compare (List.map (fun e -> int_of_n (name_of p (fst e))) (entries_of st)) in
+        if List.exists (fun st -> names_of_state st = obs) finals then 0 else 31 in
   let oops = List.exists (fun s -> s.oops) finals in
   if finals <> [] && !cover then begin
     match witness p (Array.of_list evs) with
@@ -262,10 +275,13 @@ let pool4 = List.map (fun i -> { c_name = n_of_int i; c_stop = NonBlocking; c_ex
 
 let do_membership o nw v =
   incr nmem;
-  let p = { pool = pool4; fix_c09 = false; fix_c11 = !fix11; fix_stale = false; fix_lc = true } in
+  let p = { pool = pool4; fix_c09 = false; fix_c11 = !fix11; fix_stale = false; fix_lc = true; fix_ms = !ms } in
   let cf l = List.map (fun x -> (x, N0)) (names_of l) in
   let m = membership_changed p (cf o) (cf nw) in
   if m then incr nmem_changed;
+  (* extraction re-validation (util.ml): the model's two answers for a sampled pair, as a Coq term *)
+  if vm_pick !nmem then
+    Printf.printf "VMCASE\tM\t%s\t%s\t(%s, %s)\n" o nw (coq_bool m) (coq_bool (same_name_set p (cf o) (cf nw)));
   (* pairs on which the code's answer differs from set equality (only possible with duplicates) *)
   if m = same_name_set p (cf o) (cf nw) then incr nmem_dupdiff;
   let iv = (match v with "1" -> Some true | "0" -> Some false | _ -> None) in
@@ -308,6 +324,7 @@ let () =
       | ["fix11"; v] -> fix11 := (v = "1")
       | ["stale"; v] -> stale := (v = "1")
       | ["lc"; v] -> lc := (v = "1")
+      | ["ms"; v] -> ms := (v = "1")
       | ["fuel"; v] -> fuel := int_of_string v
       | ["cap"; v] -> cap := int_of_string v
       | ["budget"; v] -> budget := float_of_string v
@@ -321,7 +338,7 @@ let () =
        match t with
        | "CASE" :: id :: fam :: "pool" :: _ :: specs ->
          cur := Some { id; family = fam; pool = List.map parse_spec specs; evs = []; blocked = ""; lives = [];
-                       parks = 0; outcome = "?"; notes = []; helds = []; cens = [] }
+                       parks = 0; outcome = "?"; notes = []; helds = []; cens = []; childstates = None }
        | "E" :: "Blocked" :: [b] -> (match !cur with Some c -> c.blocked <- b | None -> ())
        | "E" :: "Census" :: [k; w; o] ->
          (match !cur with
@@ -330,6 +347,17 @@ let () =
        | "E" :: "Held" :: [k] ->
          (match !cur with Some c -> c.helds <- (List.length c.evs, int_of_string k) :: c.helds | None -> ())
        | "E" :: "Live" :: _ :: [k] -> (match !cur with Some c -> c.lives <- c.lives @ [int_of_string k] | None -> ())
+       | "E" :: "Note" :: "childstates" :: rest ->
+         (* "child-<name>,child-<name>,..." : the keys of GetChildStates() (one per distinct String()) *)
+         (match !cur with
+          | Some c ->
+            let names = match rest with
+              | [] -> []
+              | l :: _ -> List.filter_map (fun x ->
+                  match String.split_on_char '-' x with ["child"; n] -> (try Some (int_of_string n) with _ -> None) | _ -> None)
+                  (String.split_on_char ',' l) in
+            c.childstates <- Some (List.sort_uniq compare names)
+          | None -> ())
        | "E" :: "Note" :: "park-reached" :: _ -> (match !cur with Some c -> c.parks <- c.parks + 1 | None -> ())
        | "E" :: "Note" :: _ -> ()
        | "E" :: ev ->
